@@ -38,7 +38,7 @@ PROPS = {
                      "Props.C04_caobab_wf", "Props.C04_caobab_budget", "Props.C04_caobab_run_bound", "Props.C04_caobab_gen_bound",
                      "Props.C04_terminates", "Props.C04_terminates_maximal", "Props.C04_terminates_infinite", "Props.C04_terminates_spurious",
                      "Props.C04_terminates_optimal", "Props.C04_caobab_terminates", "Props.C04_caobab_no_infinite_run"],
-        "streams": ["engine", "solve", "engine-exhaustive", "node", "node-rooms", "node-exhaustive"],
+        "streams": ["engine", "solve", "engine-exhaustive", "node", "node-rooms", "node-exhaustive", "cli-simple"],
     },
     "C05": {
         "module": "Cdecao.Props.C05",
